@@ -399,10 +399,25 @@ def explore_dispatch(ctx, base, n):
         acq = w.mkacq("acq")
         (pathlib.Path(node.root) / "acq").mkdir(exist_ok=True)
         plan = []
-        for i, (wants, dmg) in enumerate([(wt, d) for wt in "YMN" for d in ("none", "flip", "delete", "directory")]):
+        for i, (wants, dmg) in enumerate([(wt, d) for wt in "YMN" for d in ("none", "flip", "delete", "directory", "link-good", "link-short", "link-dangling")]):
             content = bytes((j * 13 + i) & 0xFF for j in range(rng.choice([1, 50, 40000])))
             f = w.mkfile(acq, f"c{i}", content)
-            if dmg == "directory":
+            if dmg.startswith("link-"):
+                # the copy's path is a symbolic link: existence, length and digest are those of what it points to
+                store = pathlib.Path(node.root) / "store"
+                store.mkdir(exist_ok=True)
+                tgt = store / f"t{i}"
+                if dmg == "link-good":
+                    tgt.write_bytes(content)
+                    disk = content
+                elif dmg == "link-short":
+                    tgt.write_bytes(content[:-1] + b"")
+                    disk = content[:-1] if len(content) > 1 else b"\x00" + content
+                    tgt.write_bytes(disk)
+                else:
+                    disk = None
+                os.symlink(tgt, pathlib.Path(node.root) / "acq" / f"c{i}")
+            elif dmg == "directory":
                 # something else sits at the copy's path: it exists and differs
                 (pathlib.Path(node.root) / "acq" / f"c{i}").mkdir()
                 (pathlib.Path(node.root) / "acq" / f"c{i}" / "inside").write_bytes(content)
